@@ -296,6 +296,34 @@ class Flow:
         self._memo[key] = out
         return out
 
+    def reached(self, starts, stop=(), env=None):
+        """blocks reached from `starts` without entering `stop`, following only the arm a known variant / bool selects
+        (the Err of a `?` inside a spliced closure does not take the Continue arm of the re-branch after the join)"""
+        b = self.b; seen = set(); out = set()
+        work = [(s, frozenset((env or {}).items())) for s in starts if s not in stop]
+        while work:
+            bi, fe = work.pop()
+            if (bi, fe) in seen: continue
+            seen.add((bi, fe)); out.add(bi)
+            if len(seen) > 60000: return set(b.live)
+            e = dict(fe); blk = b.blocks[bi]
+            self._stmts(e, blk['st'])
+            t = blk['term']; k = t['k']; succs = b.succ(bi)
+            if k == 'call': self._call(e, self.callmap.get(bi) or facts_call(bi, t))
+            elif k == 'switch' and t['d']['k'] != 'const' and not t['d']['pl']['p']:
+                v = e.get(t['d']['pl']['l'])
+                n = (1 if v else 0) if isinstance(v, bool) else v[1] if isinstance(v, tuple) else None
+                if n is not None: succs = [{val: tg for val, tg in t['ts']}.get(n, t['else'])]
+            fe2 = frozenset(e.items())
+            for x in succs:
+                if x in stop or b.blocks[x]['cleanup']: continue
+                work.append((x, fe2))
+        return out
+
+    def must_pass(self, start, targets, via):
+        """every (feasible) path from `start` to a block of `targets` goes through a block of `via`"""
+        return not (self.reached([start], stop=set(via)) & set(targets)) if start not in via else True
+
     def may_succeed(self, starts, stop=(), env=None):
         return bool(self.outcomes(starts, stop, env) & {'ok', 'unknown'})
 
@@ -905,10 +933,11 @@ def kinds_rules(ctx):
             pushes = [c for c in g.calls if c.item in PUSHES and c.bb in lo[4] and d.call in ctx.S.slice_operand(g, c.args[1]).call_objs]
             # from the test's yes side (the start of the iteration in a stage without the test) every path back to the
             # loop header goes through the stage's sink, and from the decoder through the final push
-            kept = bool(pushes) and T.must_pass(g, d.bb, {lo[1]}, {c.bb for c in pushes})
+            flg = flow(g)
+            kept = bool(pushes) and flg.must_pass(d.call.target if d.call.target >= 0 else d.bb, {lo[1]}, {c.bb for c in pushes})
             for lo_i, sink in chain:
                 start = okg[1] if (okg and okg[0] is lo_i) else lo_i[2]
-                kept = kept and T.must_pass(g, start, {lo_i[1]}, {sink.bb})
+                kept = kept and flg.must_pass(start, {lo_i[1]}, {sink.bb})
             # ... and every stage looks at ALL its items: the loop is left only when it is exhausted or with an error
             # (`break` at the first layer of another type, an early `return Ok(out)`, take(n) lose the layers behind)
             early = []
@@ -1170,7 +1199,7 @@ MAP_GET = re.compile(r'(HashMap|BTreeMap)::<.*>::get(::<.*>)?$|artifact::annotat
 CODECS = [
     ((), ()),                                                                                                     # text stored and returned as it is
     ((r'DateTime::<.*>::to_rfc3339$',), (r'DateTime::<.*>::parse_from_rfc3339$',)),   # time stamps; the zone conversion (.with_timezone(&Local) ≡ .into() ≡ DateTime::<Local>::from) keeps the instant: SAME_VALUE
-    ((r'<usize as std::string::ToString>::to_string$',), (r'str>::parse::<usize>$|<usize as std::str::FromStr>::from_str$',)),          # counts
+    ((r'<usize as std::string::ToString>::to_string$',), (r'str>::parse::<usize>$|<usize as std::str::FromStr>::from_str$|FromStr for usize>::from_str$',)),          # counts
     ((r'<ocipkg::Digest as std::string::ToString>::to_string$',), (r'ocipkg::Digest::new$',)),                          # digests
     ((r'serde_json::to_string::<',), (r'serde_json::from_str::<',)),                                                 # user parameters as JSON
     ((r'\]>::join::<',), (r'str>::split::<',)),                                                                  # list of names: join(SEP) / split(SEP), SEP compared by authors/separator
